@@ -93,7 +93,11 @@ func genNumberText(rng *rand.Rand) string {
 		lit += "." + digits(40)
 	}
 	if rng.Intn(3) == 0 {
-		lit += []string{"e", "E"}[rng.Intn(2)] + []string{"", "+", "-"}[rng.Intn(3)] + digits(3)
+		pad := ""
+		if rng.Intn(5) == 0 {
+			pad = strings.Repeat("0", 12+rng.Intn(14)) // leading zeros of an exponent are insignificant, however many
+		}
+		lit += []string{"e", "E"}[rng.Intn(2)] + []string{"", "+", "-"}[rng.Intn(3)] + pad + digits(3)
 	}
 	if rng.Intn(12) == 0 {
 		lit += []string{"a", "x", "_", "e", "$", "\u0662", "\uff13", "e\u0662", "_\u0663", "\U0001d7d8", "\u00a0+ 1", "\u3000", "\u2028"}[rng.Intn(13)]
